@@ -68,8 +68,8 @@ func (eval Evaluator) ModDown(levelQ, levelP int, ctQP *Element[ringqp.Poly], ct
 		if ctQP.IsNTT {
 			if ct.IsNTT {
 				// NTT -> NTT
-				ctQP.Value[0].Q.CopyLvl(levelQ, ct.Value[0])
-				ctQP.Value[1].Q.CopyLvl(levelQ, ct.Value[1])
+				ct.Value[0].CopyLvl(levelQ, ctQP.Value[0].Q)
+				ct.Value[1].CopyLvl(levelQ, ctQP.Value[1].Q)
 			} else {
 				// NTT -> INTT
 				ringQP.RingQ.INTT(ctQP.Value[0].Q, ct.Value[0])
@@ -83,8 +83,8 @@ func (eval Evaluator) ModDown(levelQ, levelP int, ctQP *Element[ringqp.Poly], ct
 
 			} else {
 				// INTT -> INTT
-				ctQP.Value[0].Q.CopyLvl(levelQ, ct.Value[0])
-				ctQP.Value[1].Q.CopyLvl(levelQ, ct.Value[1])
+				ct.Value[0].CopyLvl(levelQ, ctQP.Value[0].Q)
+				ct.Value[1].CopyLvl(levelQ, ctQP.Value[1].Q)
 			}
 		}
 	}
